@@ -94,6 +94,42 @@ json observe(world& w)
     }
     o["gone"] = gone;
     o["zombies"] = zombies;
+    // the same store seen through the high-level API (database / crate handles are views of these rows): every
+    // structural query of every crate, on stores only the table API can build (entities of tracks that have no row)
+    {
+        auto db = w.lib->database();
+        json hl;
+        json cr = json::array(), crates = json::array(), roots = json::array(), tks = json::array();
+        for (auto& c : db.crates())
+        {
+            crates.push_back(c.id());
+            json x = {{"id", c.id()}, {"v", c.is_valid()}, {"nm", c.name()}};
+            auto par = c.parent();
+            x["par"] = par ? par->id() : 0;
+            json ch = json::array(), de = json::array(), tr = json::array();
+            for (auto& d : c.children())
+                ch.push_back(d.id());
+            for (auto& d : c.descendants())
+                de.push_back(d.id());
+            for (auto& t : c.tracks())
+                tr.push_back(t.id());
+            x["ch"] = ch;
+            x["de"] = de;
+            x["tr"] = tr;
+            auto byid = db.crate_by_id(c.id());
+            x["byid"] = byid ? byid->id() : 0;
+            cr.push_back(std::move(x));
+        }
+        for (auto& c : db.root_crates())
+            roots.push_back(c.id());
+        for (auto& t : db.tracks())
+            tks.push_back(t.id());
+        hl["crates"] = crates;
+        hl["roots"] = roots;
+        hl["cr"] = cr;
+        hl["tracks"] = tks;
+        o["hl"] = hl;
+    }
     return o;
 }
 
